@@ -55,12 +55,12 @@ class Check:
             raise ToolError(f'specification instance {name} violates {r["violation"]}; see {r["out"]}')
         return r
 
-    def replay(self, files, aspects, label='replay', extra_args=()):
+    def replay(self, files, aspects, label='replay', extra_args=(), debug=False):
         """Replay spec-generated vectors into the real code.  `aspects`: prefixes of
         the mismatch aspects that belong to this property (e.g. 'C01.')."""
         out = os.path.join(self.workdir(), f'{label}.mismatches.ndjson')
         try:
-            s = vp.jsv(['replay'] + list(files) + ['--out', out] + list(extra_args))
+            s = vp.jsv(['replay'] + list(files) + ['--out', out] + list(extra_args), debug=debug)
         except vp.HarnessHang as e:
             self._hang(e, 'replay ' + label)
             raise RecorderAborted()
@@ -370,7 +370,7 @@ def c01(ctx):
     files.append(nest_bytes(ctx)['out'])
     ctx.replay(files, ['C01.'])
     parser_trace(ctx, ['C01.'])
-    sweeps(ctx, ['raw_str', 'raw_key', 'esc_ascii', 'esc_u', 'esc_pair', 'esc_pair2', 'esc_hexchar', 'ctx'], 'C01.sweep',
+    sweeps(ctx, ['raw_str', 'raw_key', 'esc_ascii', 'esc_u', 'esc_pair', 'esc_pair2', 'esc_hexchar', 'ctx', 'follows'], 'C01.sweep',
            'acceptance of a raw character / escape / escape pair differs from RFC 8259 (run-compressed exhaustive sweep)')
 
 
@@ -820,6 +820,8 @@ def c20(ctx):
     a2 = ctx.mc('access_nested', 'MC_Access', {'Keys': '{<<97>>}', 'Leaves': '{VNull, VNum(<<48>>)}'}, {'MaxDepth': 2 if ctx.quick else 3, 'MaxWidth': 2},
                 ['Dump', 'ExactlyOneKind'], spec='ASpec')
     ctx.replay([r['out'], a['out'], a2['out']], ['C20.'], extra_args=['--value-kinds', '1'])
+    # once more in an unoptimised build (arithmetic overflow is only checked there)
+    ctx.replay([r['out']], ['C20.'], label='replay_unoptimised', extra_args=['--value-kinds', '1'], debug=True)
     ctx.exhaustive = True
     ctx.extra['rule'] = ('the complete finite domain: all 64 sets x 3 construction routes, all 64x64 operand pairs (incl. every '
                          'set/kind and kind/kind combination), every interleaving of next / next_back / nth / nth_back steps incl. one step '
